@@ -21,3 +21,10 @@ package zkenc
 //@   nopanic[C05]
 //@   inline
 //@   requires hash != nil && hash.h != nil && group != nil && public.K != nil && pkok(public.Prover) && pkvals(public.Prover) && pkbig(public.Prover) && pedok(public.Aux) && commitment != nil
+//@   use absorb
+//@   ensures[C10] result1 == nil ==> absorbed(hstate(hash), habs(iface(public.K)))
+//@   ensures[C10] result1 == nil ==> absorbed(hstate(hash), habs(iface(public.Prover)))
+//@   ensures[C10] result1 == nil ==> absorbed(hstate(hash), habs(iface(public.Aux)))
+//@   ensures[C10] result1 == nil ==> absorbed(hstate(hash), habs(iface(commitment.S)))
+//@   ensures[C10] result1 == nil ==> absorbed(hstate(hash), habs(iface(commitment.A)))
+//@   ensures[C10] result1 == nil ==> absorbed(hstate(hash), habs(iface(commitment.C)))
